@@ -32,7 +32,16 @@ def general_scenario(rng, i, tier, extra_prof=None):
         spec['load'].pop('units_cycle', None)
         if spec['load'].get('step_t') is None and rng.random() < 0.5:
             spec['load'].update(step_t=spec['_ref']['dt_si'] * (rng.randint(2, 5) + 0.5), step_A=GEN.sig(0.3 * spec['_ref']['T_out'], 3))
-        spec['ic']['pwm'] = rng.choice([0, 0.0, 0])
+        if rng.random() < 0.5:
+            spec['ic']['pwm'] = rng.choice([0, 0.0, 0])
+        else:
+            # driven first, switched off in the middle of the run by a timer rule (and possibly on again): the net torque
+            # BECOMES exactly zero while the chain is moving
+            ref_ = spec['_ref']
+            k0 = rng.randint(2, max(3, ref_['n'] // 2)) + 0.5
+            k1 = rng.choice([3 * ref_['n'], rng.randint(2, max(3, ref_['n'] // 3))])
+            spec['rules'] = [{'type': 'const', 'start': GEN.Q('Time', GEN.sig(k0 * ref_['dt_si'], 12), 'sec'),
+                              'dur': GEN.Q('TimeInterval', GEN.sig(k1 * ref_['dt_si'], 12), 'sec'), 'value': rng.choice([0, 0.0])}]
         spec['coasting'] = True
         return spec
     if m in (0, 4, 5) or rng.random() < 0.2:
@@ -106,6 +115,7 @@ def simulate_and_monitor(ctx, spec, case, monitors, nontrivial=None, key_extra='
     runs = B.run_schedule(b)
     ctx.current_built = b
     ctx.count('rejected_run_calls', getattr(b, 'rejected_runs', 0))
+    ctx.count('live_quantities_converted_in_place_between_runs', getattr(b, 'reported', 0))
     ctx.count('bystander_model_operations', getattr(b, 'bystander_ops', 0))
     ctx.count('driven_part_mounted_on_a_second_motor', getattr(b, 'remounts', 0))
     if getattr(b, 'mid_schedule_failures', None) and any(x[0].startswith('remount:') for x in b.mid_schedule_failures):
